@@ -184,7 +184,7 @@ func c15Seq(p vbase.Params, r *vbase.Result) {
 		maxLen = 6
 	}
 	r.Rule = fmt.Sprintf("real CommandCache vs reference (FIFO of accepted commands + per-client proposed marker): ALL sequences over add/mark-proposed/get/get-with-cancelled-context for 2 clients x seq 1..2, batch sizes 1..3, length <= %d; "+
-		"random sequences (3 clients, seq 1..6, length <= 80); a Get the model says must block is given a 150us deadline and may only return the context error; a Get the model says must return is awaited "+
+		"random sequences (3 clients, seq 1..6, length <= 80; every third with client ids and sequence numbers spread over the 32/64-bit range, agreeing in one half); a Get the model says must block is given a 150us deadline and may only return the context error; a Get the model says must return is awaited "+
 		"(30s watchdog) and must return exactly the model's batch; non-trivial: a mark-proposed before a get; distinct: (batch size, sequence)", maxLen)
 	r.Exhaustive = true
 	var alpha []c15Op
@@ -255,6 +255,25 @@ func c15Seq(p vbase.Params, r *vbase.Result) {
 				c2 := uint32(rng.Range(1, 3))
 				ops[k] = c15Op{Kind: 'Q', K: cmdKey{c, uint64(rng.Range(1, 6))}, K2: cmdKey{c2, uint64(rng.Range(1, 6))}}
 			}
+		}
+		if i%3 == 2 {
+			// identifiers are arbitrary 32- and 64-bit numbers: the same program with client ids and sequence numbers that agree
+			// in their low (or high) halves and differ elsewhere
+			cm := [][]uint32{{0, 1, 1<<16 | 1, 1<<31 | 1}, {0, 1 << 16, 2 << 16, 3 << 16}, {0, ^uint32(0), ^uint32(0) - 1, 0}}[rng.Intn(3)]
+			sb := map[uint32]uint64{}
+			for c := uint32(1); c <= 3; c++ {
+				sb[c] = []uint64{0, 1 << 32, uint64(c) << 32, 1<<63 - 8, ^uint64(0) - 8}[rng.Intn(5)]
+			}
+			wide := func(k cmdKey) cmdKey {
+				if k.C == 0 {
+					return k
+				}
+				return cmdKey{cm[k.C], sb[k.C] + k.S}
+			}
+			for k := range ops {
+				ops[k].K, ops[k].K2 = wide(ops[k].K), wide(ops[k].K2)
+			}
+			r.Obs("sequences_with_wide_identifiers", 1)
 		}
 		if !c15RunSeq(r, batch, ops) && r.NViolations() > 2 {
 			return
